@@ -62,6 +62,18 @@ Fixpoint all_some {A} (l : list (option A)) : option (list A) :=
   | None :: _ => None
   end.
 
+(* = all_some (map f l) (BindingProofs.map_opt_eq), but stops at the first failure: with fuel bounding only the
+   depth, a self-referential binding would otherwise cost time exponential in the fuel *)
+Fixpoint map_opt {A B} (f : A -> option B) (l : list A) : option (list B) :=
+  match l with
+  | [] => Some []
+  | a :: r =>
+      match f a with
+      | None => None
+      | Some b => match map_opt f r with Some r' => Some (b :: r') | None => None end
+      end
+  end.
+
 (* The visitor, reduced to what it does with names.
    - visit_Name: resolve_id looks the name up in the frame stack *current at the time of the lookup*
      and then visits the AST it is bound to (`self.get_rep(id)`) in that same stack: dynamic scoping.
@@ -87,14 +99,14 @@ Fixpoint resolve (fuel : nat) (fr : frames) (d : nat) (e : expr) {struct fuel} :
     | ECall (ELam ps body) args =>
         resolve f (define_all ps (map BAst args) [] :: fr) d body
     | ECall g args =>
-        match resolve f fr d g, all_some (map (resolve f fr d) args) with
-        | Some rg, Some ra => Some (CCall rg ra)
-        | _, _ => None
+        match resolve f fr d g with
+        | None => None
+        | Some rg => match map_opt (resolve f fr d) args with Some ra => Some (CCall rg ra) | None => None end
         end
     | ELam ps body =>
         option_map (CLam (List.length ps))
           (resolve f (define_all ps (map BVal (seq d (List.length ps))) [] :: fr) (d + List.length ps) body)
-    | EOp op args => option_map (COp op) (all_some (map (resolve f fr d) args))
+    | EOp op args => option_map (COp op) (map_opt (resolve f fr d) args)
     end
   end.
 
